@@ -20,7 +20,7 @@ PROP = "C18"
 LEVEL = "exploration"
 
 CORPUS = ["quic_default", "quic_zero_ccid", "quic_prefix_cids", "quic_ncid", "quic_two", "tls12", "tls12_b", "tls13_v6", "tls13_b", "mixed",
-          "quic_dup_initial", "quic_vn", "tls12_retransmissions", "tls12_cbc_damaged", "tls_nine", "quic_alpn_bytes",
+          "quic_dup_initial", "quic_vn", "tls12_retransmissions", "tls12_cbc_damaged", "tls_nine", "quic_alpn_bytes", "bad_checksums",
           "aborts_cut_file", "aborts_no_capture"]
 # quic_alpn_bytes: the ClientHello offers one application protocol whose name is not ASCII (a GREASE value, RFC 8701);
 # aborts_*: inputs on which the run ends with an error (file cut inside a block / not a capture at all) - they only serve as
@@ -84,6 +84,20 @@ def scenario(name, seed):
         if name == "aborts_cut_file":
             return data[:len(data) * 2 // 3 + 1], kl, []
         return b"this is not a capture file\n" * 4, kl, []
+    elif name == "bad_checksums":
+        # a TLS and a QUIC connection; a damaged copy (payload byte changed, checksum left as it was) of a data segment / datagram
+        # precedes the intact one: what is exported depends on whether -c is in force
+        ft = scen.tls_flow({"version": tls.TLS12, "suite": 0xC02F, "history": [("c", 100), ("s", 300), ("c", 20)]}, seed, 0, key=("badsum",))
+        fq = scen.quic_flow({"suite": 0x1301}, seed, 1, key=("badsum",))
+        for f in (ft, fq):
+            idx = [i for i, p in enumerate(f.pkts) if p.payload]
+            i = idx[len(idx) // 2]
+            good = f.pkts[i]
+            bad = good.copy()
+            bad.bad_sum = _tsum(good, f.ends)
+            bad.payload = good.payload[:-1] + bytes([good.payload[-1] ^ 0x20])
+            f.pkts.insert(i, bad)
+        flows += [ft, fq]
     elif name == "tls12_cbc_damaged":
         f = scen.tls_flow({"version": tls.TLS12, "suite": 0x003D, "history": [("c", 100), ("s", 620), ("c", 50), ("s", 40)]}, seed, 0, key=("dmg",))
         big = max((p for p in f.pkts if p.dir == "s" and p.payload), key=lambda p: len(p.payload))
@@ -123,6 +137,16 @@ def scenario(name, seed):
             c = f.conn
             cids.append(sorted({c.odcid, c.ccid, c.scid}))
     return cap.pcapng(pkts), "\n".join(lines) + "\n", cids
+
+
+def _tsum(p, ends):
+    """the (correct) transport checksum of a packet as rendered for these endpoints"""
+    import struct
+    from ..model import net
+    fr = cap.render(p.copy(), {p.conn: ends}).frame
+    v6 = fr[12:14] == b"\x86\xdd"
+    off = 14 + (40 if v6 else 20) + (16 if p.proto == "tcp" else 6)
+    return struct.unpack("!H", fr[off:off + 2])[0]
 
 
 def witness_seeds(cidsets, S):
@@ -245,7 +269,7 @@ def run_case(case):
                 nontriv.append(engine.jhash(sig))
         # the two runs of a pair use DIFFERENT options: nothing an option switched on or collected may survive into the next run
         if a not in ABORTING:
-            for b in ("mixed", "quic_two", "tls12"):
+            for b in ("mixed", "quic_two", "bad_checksums"):
                 db, kb, _ = scenario(b, seed)
                 for xa, xb in ((("-m", "443:9000"), ("-m",)), ((), ("-c",)), (("-c",), ()), (("-a",), ()), (("-p", "8443", "-m", "8443:1"), ()),
                                (("-g",), ("-m", "44330:7"))):
